@@ -13,15 +13,23 @@ import (
 
 type omKey string
 type omVal []byte
+type omSlice []uint16
+type omPtr struct {
+	A uint8 `serix:""`
+	B omVal `serix:""`
+}
 
 func TestOrderedMapRoundTrip(t *testing.T) {
 	const check = "serializable_orderedmap_roundtrip"
-	stats.Rule(check, "SerializableOrderedMap[string-with-uint8-prefix, []byte-with-uint16-prefix] and [uint16, int64]: rapid draws an insertion history (set, overwrite, delete, re-insert) ; Encode then Decode into a fresh map must reproduce keys, values and iteration order, consume exactly the produced bytes (also with trailing bytes), and Encode twice gives identical bytes. Distinct by history; non-trivial = history contains a delete followed by a re-insert or an overwrite, and >= 2 entries remain")
+	stats.Rule(check, "SerializableOrderedMap[string-with-uint8-prefix, []byte-with-uint16-prefix] [uint16, int64], [uint8, []uint16] and [uint8, *struct]: rapid draws an insertion history (set, overwrite, delete, re-insert) ; Encode then Decode into a fresh map must reproduce keys, values and iteration order, consume exactly the produced bytes (also with trailing bytes), and Encode twice gives identical bytes. Distinct by history; non-trivial = history contains a delete followed by a re-insert or an overwrite, and >= 2 entries remain")
 	api := serix.NewAPI()
 	if err := api.RegisterTypeSettings(omKey(""), serix.TypeSettings{}.WithLengthPrefixType(serix.LengthPrefixTypeAsByte)); err != nil {
 		t.Fatal(err)
 	}
 	if err := api.RegisterTypeSettings(omVal(nil), serix.TypeSettings{}.WithLengthPrefixType(serix.LengthPrefixTypeAsUint16)); err != nil {
+		t.Fatal(err)
+	}
+	if err := api.RegisterTypeSettings(omSlice(nil), serix.TypeSettings{}.WithLengthPrefixType(serix.LengthPrefixTypeAsByte)); err != nil {
 		t.Fatal(err)
 	}
 	rapid.Check(t, func(rt *rapid.T) {
@@ -73,6 +81,51 @@ func TestOrderedMapRoundTrip(t *testing.T) {
 			if fmt.Sprint(ks1) != fmt.Sprint(ks2) {
 				fail("decoded contents/order %v != %v", ks2, ks1)
 			}
+		}
+		// composite value types: a decoder that re-used its destination across entries would let entries leak into
+		// each other (slices accumulate, pointers alias)
+		cs := serializableorderedmap.New[uint8, omSlice]()
+		cp := serializableorderedmap.New[uint8, *omPtr]()
+		ne := rapid.IntRange(0, 4).Draw(rt, "compositeEntries")
+		for i := 0; i < ne; i++ {
+			k := uint8(rapid.IntRange(0, 5).Draw(rt, fmt.Sprintf("ck%d", i)))
+			sl := rapid.SliceOfN(rapid.Uint16(), 0, 3).Draw(rt, fmt.Sprintf("cs%d", i))
+			cs.Set(k, omSlice(sl))
+			cp.Set(k, &omPtr{A: uint8(len(sl)), B: omVal(rapid.SliceOfN(rapid.Byte(), 0, 3).Draw(rt, fmt.Sprintf("cb%d", i)))})
+		}
+		if bs, err := cs.Encode(api); err != nil {
+			fail("Encode(uint8,[]uint16): %v", err)
+		} else {
+			cs2 := serializableorderedmap.New[uint8, omSlice]()
+			if c, err := cs2.Decode(api, bs); err != nil || c != len(bs) {
+				fail("Decode(uint8,[]uint16): consumed %d of %d, err %v", c, len(bs), err)
+			}
+			var x1, x2 []string
+			cs.ForEach(func(k uint8, v omSlice) bool { x1 = append(x1, fmt.Sprint(k, []uint16(v))); return true })
+			cs2.ForEach(func(k uint8, v omSlice) bool { x2 = append(x2, fmt.Sprint(k, []uint16(v))); return true })
+			if fmt.Sprint(x1) != fmt.Sprint(x2) {
+				fail("decoded (uint8,[]uint16) contents/order %v != %v", x2, x1)
+			}
+			if bs2, _ := cs2.Encode(api); !bytes.Equal(bs, bs2) {
+				fail("re-encoding the decoded (uint8,[]uint16) map differs: %x != %x", bs2, bs)
+			}
+		}
+		if bp, err := cp.Encode(api); err != nil {
+			fail("Encode(uint8,*struct): %v", err)
+		} else {
+			cp2 := serializableorderedmap.New[uint8, *omPtr]()
+			if c, err := cp2.Decode(api, bp); err != nil || c != len(bp) {
+				fail("Decode(uint8,*struct): consumed %d of %d, err %v", c, len(bp), err)
+			}
+			var x1, x2 []string
+			cp.ForEach(func(k uint8, v *omPtr) bool { x1 = append(x1, fmt.Sprintf("%d:%d/%x", k, v.A, []byte(v.B))); return true })
+			cp2.ForEach(func(k uint8, v *omPtr) bool { x2 = append(x2, fmt.Sprintf("%d:%d/%x", k, v.A, []byte(v.B))); return true })
+			if fmt.Sprint(x1) != fmt.Sprint(x2) {
+				fail("decoded (uint8,*struct) contents/order %v != %v", x2, x1)
+			}
+		}
+		if ne >= 2 {
+			interesting = true
 		}
 		b2, err := n.Encode(api)
 		if err != nil {
